@@ -531,9 +531,9 @@ def run_history(case, ctx):
 def subs(tier):
     return [
         Sub("boundary_hist", run_history, strategy=history(border=False), quick=2400, thorough=48000, shards_quick=8,
-            shards_thorough=16),
+            shards_thorough=16, timeout_quick=1500),
         Sub("border_hist", run_history, strategy=history(border=True), quick=1200, thorough=24000, shards_quick=8,
-            shards_thorough=16),
+            shards_thorough=16, timeout_quick=1500),
     ]
 
 
